@@ -1,4 +1,311 @@
+//! C03 - handler results and failures are reported faithfully to the frontend caller.
+//!
+//! Real frontend <-> real server with a daemon-like loop (serve until a request fails, then
+//! drop the connection). The handler outcome is scripted; the call must return exactly the
+//! scripted success value/bytes/file, or an error - in bounded time. "Never returns" is decided
+//! by a blocked-reader certificate (caller parked in recvmsg, server parked in recvmsg waiting
+//! for the next request, nothing in flight), not by the clock.
+
+use crate::ops::{self, FeOp, Lent, Outcome, ReplyKind};
+use crate::rec::{config_pattern, CfgOut, DevStateOut, Script};
+use crate::util;
 use crate::Cfg;
-pub fn run(_cfg: &Cfg) {
-    common::report::inconclusive("not implemented");
+use common::spec;
+use common::sys;
+use common::{jo, report, Rng, J};
+use std::os::unix::io::AsRawFd;
+use std::sync::atomic::{AtomicI32, Ordering};
+use std::sync::mpsc;
+use std::sync::Arc;
+use std::time::{Duration, Instant};
+
+use vhost::vhost_user::message::VhostUserHeaderFlag;
+use vhost::VhostBackend;
+
+#[derive(Clone, Debug)]
+struct Case {
+    op: FeOp,
+    script: Script,
+    need_reply: bool,
+    reply_ack: bool,
+    /// Some(true): must succeed with the scripted values; Some(false): must fail; None: not judged
+    expect_ok: Option<bool>,
+    shape: String,
+}
+
+enum Verdict {
+    Returned(Outcome),
+    Blocked(String),
+    Inconclusive(String),
+}
+
+/// Run the call in its own thread and watch for the blocked-reader certificate.
+fn run_call(cn: &mut util::Conn, op: &FeOp) -> (Verdict, Lent) {
+    let (tx, rx) = mpsc::channel();
+    let mut fe = cn.fe.clone();
+    let op2 = op.clone();
+    let tid = Arc::new(AtomicI32::new(0));
+    let tid2 = tid.clone();
+    let fe_fd = cn.fe.as_raw_fd();
+    let h = std::thread::Builder::new()
+        .name("hv-caller".into())
+        .spawn(move || {
+            tid2.store(sys::gettid(), Ordering::SeqCst);
+            let mut lent = Lent::default();
+            let r = util::catch(|| op2.exec(&mut fe, &mut lent));
+            let _ = tx.send(());
+            (r, lent)
+        })
+        .expect("spawn caller");
+    let deadline = Instant::now() + Duration::from_secs(20);
+    let mut verdict = None;
+    loop {
+        if rx.recv_timeout(Duration::from_millis(2)).is_ok() {
+            break;
+        }
+        let ct = tid.load(Ordering::SeqCst);
+        let st = cn.server_tid.load(Ordering::SeqCst);
+        if ct > 0 && sys::parked_in(ct, &[sys::SYS_RECVMSG]) {
+            let server_waiting = st > 0 && sys::parked_in(st, &[sys::SYS_RECVMSG]);
+            let server_gone = st == -1;
+            let quiet = sys::inq(fe_fd) == 0 && (server_gone || sys::inq(cn.server_fd) == 0);
+            if quiet && (server_waiting || server_gone) {
+                // re-sample once more after a pause: nothing may have moved
+                std::thread::sleep(Duration::from_millis(5));
+                let still = sys::parked_in(ct, &[sys::SYS_RECVMSG])
+                    && sys::inq(fe_fd) == 0
+                    && (cn.server_tid.load(Ordering::SeqCst) == -1 || (sys::parked_in(st, &[sys::SYS_RECVMSG]) && sys::inq(cn.server_fd) == 0));
+                if still && rx.try_recv().is_err() {
+                    verdict = Some(Verdict::Blocked(format!(
+                        "caller tid {ct} parked in recvmsg, server {} , no bytes in flight in either direction",
+                        if server_gone { "gone".to_string() } else { format!("tid {st} parked in recvmsg waiting for the next request") }
+                    )));
+                    break;
+                }
+            }
+        }
+        if Instant::now() > deadline {
+            verdict = Some(Verdict::Inconclusive("watchdog expired without a blocked-reader certificate".into()));
+            break;
+        }
+    }
+    if verdict.is_some() {
+        // unblock the caller so that the harness can go on
+        unsafe { libc::shutdown(fe_fd, libc::SHUT_RDWR) };
+    }
+    let (r, lent) = h.join().expect("caller thread");
+    match verdict {
+        Some(v) => (v, lent),
+        None => match r {
+            Ok(o) => (Verdict::Returned(o), lent),
+            Err(p) => (Verdict::Blocked(format!("panic in frontend call: {} at {}", p.msg, p.location)), lent),
+        },
+    }
+}
+
+fn expected_success(op: &FeOp, s: &Script) -> (Vec<u64>, Vec<u8>, bool) {
+    // (values, bytes, file expected)
+    match op {
+        FeOp::GetFeatures => (vec![s.features], vec![], false),
+        FeOp::GetProtocolFeatures => (vec![s.protocol_features | spec::PF_REPLY_ACK], vec![], false),
+        FeOp::GetQueueNum => (vec![s.queue_num], vec![], false),
+        FeOp::GetMaxMemSlots => (vec![s.max_mem_slots], vec![], false),
+        FeOp::GetVringBase(_) => (vec![s.vring_base_num as u64], vec![], false),
+        FeOp::GetConfig { offset, size, flags, .. } => (vec![*offset as u64, *size as u64, *flags as u64], config_pattern(*offset, *size, 0x5a), false),
+        FeOp::GetInflightFd(..) => {
+            let r = s.inflight_reply;
+            (vec![r.0, r.1, r.2 as u64, r.3 as u64], vec![], true)
+        }
+        FeOp::GetSharedObject(_) | FeOp::PostcopyAdvise => (vec![], vec![], true),
+        FeOp::SetDeviceStateFd(..) => (vec![], vec![], s.dev_state == DevStateOut::WithFile),
+        FeOp::GetShmemConfig => {
+            let mut v = vec![s.shmem.0 as u64];
+            let mut sizes = [0u64; 256];
+            for (i, x) in s.shmem.1.iter().enumerate().take(256) {
+                sizes[i] = *x;
+            }
+            v.extend_from_slice(&sizes);
+            (v, vec![], false)
+        }
+        _ => (vec![], vec![], false),
+    }
+}
+
+fn judge(cfg: &Cfg, c: &Case, idx: u64) {
+    let mut cn = util::conn(c.script.clone(), 256);
+    let pf = if c.reply_ack { ops::ALL_PF } else { ops::ALL_PF & !spec::PF_REPLY_ACK };
+    // negotiation runs with a succeeding script
+    {
+        let mut g = cn.be.lock().unwrap();
+        g.script.fail.clear();
+        g.script.features = spec::VIRTIO_F_PROTOCOL_FEATURES | 3;
+        g.script.protocol_features = ops::ALL_PF;
+    }
+    if let Err(e) = util::negotiate(&mut cn.fe, spec::VIRTIO_F_PROTOCOL_FEATURES, Some(pf)) {
+        report::inconclusive(&format!("negotiation failed: {e}"));
+        return;
+    }
+    if c.need_reply {
+        cn.fe.set_hdr_flags(VhostUserHeaderFlag::NEED_REPLY);
+    }
+    let _ = cn.fe.get_features(); // barrier
+    cn.be.lock().unwrap().script = c.script.clone();
+    let case = format!("case:{idx}");
+    let (v, _lent) = run_call(&mut cn, &c.op);
+    report::eval(1);
+    report::count(&format!("op.{}", c.op.name()), 1);
+    report::count(match c.expect_ok { Some(true) => "expect.success", Some(false) => "expect.error", None => "expect.unjudged" }, 1);
+    report::distinct(report::hash_mix(report::hash_str(&format!("{}:{}:{}{}", c.op.name(), c.shape, c.need_reply as u8, c.reply_ack as u8)), report::hash_bytes(format!("{:?}", c.op).as_bytes())));
+    let base = |extra: J| {
+        jo! {"op" => c.op.j(), "handler_outcome" => c.shape.as_str(), "need_reply" => c.need_reply, "reply_ack" => c.reply_ack, "observed" => extra}
+    };
+    match v {
+        Verdict::Inconclusive(r) => report::inconclusive(&format!("{} {}: {r}", c.op.name(), c.shape)),
+        Verdict::Blocked(why) => {
+            report::violation(&format!("C03:{}:{}:call-never-returns", c.op.name(), c.shape), base(jo! {"certificate" => why}), cfg.replay(&case));
+        }
+        Verdict::Returned(out) => {
+            let ret_ident = cn.be.lock().unwrap().returned.last().cloned();
+            match c.expect_ok {
+                None => {
+                    report::observe(&format!("unjudged:{}:{}:{}", c.op.name(), c.shape, if out.ok { "Ok" } else { "Err" }), J::Null);
+                }
+                Some(false) => {
+                    if out.ok {
+                        report::violation(&format!("C03:{}:{}:success-on-failure", c.op.name(), c.shape), base(out.j()), cfg.replay(&case));
+                    }
+                }
+                Some(true) => {
+                    let (vals, bytes, want_file) = expected_success(&c.op, &c.script);
+                    let file_ok = match (&out.file, want_file) {
+                        (Some(f), true) => sys::ident(f.as_raw_fd()) == ret_ident && ret_ident.is_some(),
+                        (None, false) => true,
+                        _ => false,
+                    };
+                    if !out.ok {
+                        report::violation(&format!("C03:{}:{}:error-on-success", c.op.name(), c.shape), base(out.j()), cfg.replay(&case));
+                    } else if out.vals != vals || out.bytes != bytes || !file_ok {
+                        let what = if out.vals != vals { "values" } else if out.bytes != bytes { "bytes" } else { "file" };
+                        report::violation(&format!("C03:{}:{}:wrong-{}", c.op.name(), c.shape, what),
+                            base(jo! {"returned" => out.j(), "scripted_values" => vals.iter().map(|v| J::x64(*v)).collect::<Vec<J>>(), "scripted_bytes" => J::hex(&bytes), "file_ok" => file_ok}), cfg.replay(&case));
+                    }
+                }
+            }
+            report::sample(&format!("{}:{}", c.op.name(), c.shape), jo! {"op" => c.op.j(), "handler_outcome" => c.shape.as_str(), "need_reply" => c.need_reply, "reply_ack" => c.reply_ack, "call_returned" => out.j()});
+        }
+    }
+    let _ = cn.finish();
+}
+
+fn gen_cases(cfg: &Cfg, rng: &mut Rng) -> Vec<Case> {
+    let mut v = Vec::new();
+    let reps = cfg.pick(3, 30);
+    let base_script = || {
+        let mut s = util::full_script();
+        s.queue_num = 256;
+        s
+    };
+    for kind in 0..ops::N_OP_KINDS {
+        for _ in 0..reps {
+            let op = loop {
+                let o = ops::rand_op(rng, 256, Some(kind));
+                if !o.locally_invalid(256) {
+                    break o;
+                }
+            };
+            if matches!(op, FeOp::SetLogFd | FeOp::SetFeatures(_) | FeOp::SetProtocolFeatures(_)) {
+                // SET_LOG_FD has no backend handler; the two SET_*FEATURES change the negotiated
+                // state they are judged under (their acks are covered by C04)
+                continue;
+            }
+            let kind_r = op.reply_kind(true);
+            for need_reply in [false, true] {
+                for reply_ack in [false, true] {
+                    let mk = |script: Script, expect_ok: Option<bool>, shape: &str| Case { op: op.clone(), script, need_reply, reply_ack, expect_ok, shape: shape.to_string() };
+                    // ---- success with scripted values
+                    let mut s = base_script();
+                    s.features = rng.interesting64();
+                    s.protocol_features = rng.interesting64() & ((1 << 22) - 1);
+                    s.queue_num = *rng.pick(&[0u64, 1, 2, 256, 0x7fff, 0x8000]);
+                    s.max_mem_slots = rng.interesting64();
+                    s.vring_base_num = rng.interesting64() as u32;
+                    s.inflight_reply = (rng.interesting64(), rng.interesting64(), rng.range(1, 0xffff) as u16, rng.range(1, 0xffff) as u16);
+                    s.shmem = (rng.below(257) as u32, (0..rng.below(257)).map(|_| rng.interesting64()).collect());
+                    s.dev_state = if rng.chance(1, 2) { DevStateOut::NoFile } else { DevStateOut::WithFile };
+                    let judged = kind_r != ReplyKind::Ack || (need_reply && reply_ack) || true;
+                    v.push(mk(s.clone(), if judged { Some(true) } else { None }, "ok"));
+                    // ---- handler failure, every error variant
+                    for ek in 0..5u8 {
+                        if !cfg.thorough && ek != (kind as u8 + need_reply as u8) % 5 {
+                            continue;
+                        }
+                        let mut f = s.clone();
+                        f.fail = vec!["*"];
+                        f.err_kind = ek;
+                        f.config = CfgOut::Err;
+                        f.dev_state = DevStateOut::Err;
+                        let exp = match kind_r {
+                            ReplyKind::Ack => {
+                                if need_reply && reply_ack {
+                                    Some(false)
+                                } else {
+                                    None
+                                }
+                            }
+                            ReplyKind::Nothing => None,
+                            _ => Some(false),
+                        };
+                        if matches!(op, FeOp::SetBackendReqFd) {
+                            continue; // the handler cannot fail (returns ())
+                        }
+                        v.push(mk(f, exp, &format!("handler-err{ek}")));
+                    }
+                    // ---- unusable results
+                    match &op {
+                        FeOp::GetConfig { .. } => {
+                            for (co, name) in [(CfgOut::Short, "config-short"), (CfgOut::Long, "config-long"), (CfgOut::Empty, "config-empty")] {
+                                let mut f = s.clone();
+                                f.config = co;
+                                v.push(mk(f, Some(false), name));
+                            }
+                        }
+                        FeOp::GetQueueNum => {
+                            let mut f = s.clone();
+                            f.queue_num = 0x8001 + rng.below(1000);
+                            v.push(mk(f, None, "queue-num-above-0x8000"));
+                        }
+                        FeOp::SetDeviceStateFd(..) => {
+                            let mut f = s.clone();
+                            f.dev_state = DevStateOut::Err;
+                            v.push(mk(f, Some(false), "device-state-err"));
+                        }
+                        _ => {}
+                    }
+                }
+            }
+        }
+    }
+    v
+}
+
+pub fn run(cfg: &Cfg) {
+    report::assume("bounded time is decided by a /proc blocked-reader certificate (caller and server both parked in recvmsg, SIOCINQ == 0 both ways), never by wall-clock; watchdog expiry alone is inconclusive");
+    report::assume("which error variant is returned is not judged; un-acknowledged set-operations (no REPLY_ACK or no NEED_REPLY) are observed only");
+    // case list is generated from a seed-derived stream, identically in every shard
+    let mut rng = Rng::new(cfg.seed.wrapping_mul(0xc03));
+    let cases = gen_cases(cfg, &mut rng);
+    report::extra("x_cases_total", J::U(cases.len() as u64));
+    if let Some(o) = &cfg.only {
+        if let Some(i) = o.strip_prefix("case:").and_then(|s| s.parse::<usize>().ok()) {
+            if let Some(c) = cases.get(i) {
+                judge(cfg, c, i as u64);
+            }
+            return;
+        }
+    }
+    for (i, c) in cases.iter().enumerate() {
+        if cfg.mine(i as u64) {
+            judge(cfg, c, i as u64);
+        }
+    }
 }
